@@ -11,16 +11,16 @@ open PebblesVerif PebblesVerif.Exec PebblesVerif.Flat PebblesVerif.ResultOps
 
 /-! ### insertion points for a one-point path extend the branch by one point -/
 
-theorem findIP_go_single (branch : List String) (found : Sel) (last : Bool) :
+theorem findIP_go_single (sk : Bool) (branch : List String) (found : Sel) (last : Bool) :
     ∀ (es : List J) (i : Nat) (acc : List (List String)) (r : Option (List (List String))),
     (∀ ip ∈ acc, ∃ x, ip = branch ++ [x]) →
-    findIP.go [] branch found last es i acc = .ok r → ∀ ip ∈ r.getD [], ∃ x, ip = branch ++ [x]
+    findIPW.go sk [] branch found last es i acc = .ok r → ∀ ip ∈ r.getD [], ∃ x, ip = branch ++ [x]
   | [], i, acc, r, hacc, h => by
-    rw [findIP.go] at h
+    rw [findIPW.go] at h
     simp only [Except.ok.injEq] at h
     subst h; simpa using hacc
   | .obj entry :: es, i, acc, r, hacc, h => by
-    rw [findIP.go] at h
+    rw [findIPW.go] at h
     simp only [bind, Except.bind] at h
     split at h
     · cases h
@@ -30,29 +30,33 @@ theorem findIP_go_single (branch : List String) (found : Sel) (last : Bool) :
         simp only [Except.ok.injEq] at h
         subst h; simp
       | some id =>
-        simp only [findIP] at h
-        refine findIP_go_single branch found last es (i + 1) _ r ?_ h
+        simp only [findIPW] at h
+        refine findIP_go_single sk branch found last es (i + 1) _ r ?_ h
         intro ip hip
         simp only [List.mem_append, List.mem_singleton] at hip
         rcases hip with hip | rfl
         · exact hacc ip hip
         · exact ⟨_, rfl⟩
-  | .null :: es, i, acc, r, _, h => by
-    rw [findIP.go] at h <;> first | cases h | (intro _ hh; cases hh)
+  | .null :: es, i, acc, r, hacc, h => by
+    -- a null element: passed over (after the repair) or an error (before it)
+    rw [findIPW.go] at h
+    split at h
+    · exact findIP_go_single sk branch found last es (i + 1) acc r hacc h
+    · cases h
   | .bool _ :: es, i, acc, r, _, h => by
-    rw [findIP.go] at h <;> first | cases h | (intro _ hh; cases hh)
+    rw [findIPW.go] at h <;> first | cases h | (intro _ hh; cases hh) | (intro hh; cases hh)
   | .num _ :: es, i, acc, r, _, h => by
-    rw [findIP.go] at h <;> first | cases h | (intro _ hh; cases hh)
+    rw [findIPW.go] at h <;> first | cases h | (intro _ hh; cases hh) | (intro hh; cases hh)
   | .str _ :: es, i, acc, r, _, h => by
-    rw [findIP.go] at h <;> first | cases h | (intro _ hh; cases hh)
+    rw [findIPW.go] at h <;> first | cases h | (intro _ hh; cases hh) | (intro hh; cases hh)
   | .arr _ :: es, i, acc, r, _, h => by
-    rw [findIP.go] at h <;> first | cases h | (intro _ hh; cases hh)
+    rw [findIPW.go] at h <;> first | cases h | (intro _ hh; cases hh) | (intro hh; cases hh)
 
 /-- for a path of ONE point every realised insertion point is the branch plus one point -/
 theorem findIP_single (p : String) (sels : List Sel) (chunk : List (String × J)) (branch : List String)
     (res : List (List String)) (h : findIP [p] sels chunk branch = .ok res) :
     ∀ ip ∈ res, ∃ x, ip = branch ++ [x] := by
-  rw [findIP] at h
+  rw [findIP, findIPW] at h
   split at h
   · simp only [Except.ok.injEq] at h; subst h; simp
   · rename_i found _
@@ -71,7 +75,7 @@ theorem findIP_single (p : String) (sels : List Sel) (chunk : List (String × J)
           · rename_i r hr
             simp only [Except.ok.injEq] at h
             subst h
-            exact findIP_go_single branch found true _ 0 [] r (by simp) hr
+            exact findIP_go_single _ branch found true _ 0 [] r (by simp) hr
         · cases h
       · split at h
         · split at h
